@@ -448,7 +448,7 @@ func Tokens(src []byte) ([]Token, *Error) {
 
 func lexAll(src []byte) ([]Token, *Error, bool) {
 	l := &lexer{src: src}
-	var toks []Token
+	toks := make([]Token, 0, 16)
 	for {
 		t, err := l.next()
 		if err != nil {
@@ -470,6 +470,18 @@ func lexAll(src []byte) ([]Token, *Error, bool) {
 func Undefined(src []byte) (bool, string) {
 	if !utf8.Valid(src) {
 		return true, "invalid-utf8"
+	}
+	// a number token ends in a digit: without a digit directly followed by a
+	// name start there is nothing to find
+	cand := false
+	for i := 0; i+1 < len(src); i++ {
+		if isDigit(src[i]) && isNameStart(src[i+1]) {
+			cand = true
+			break
+		}
+	}
+	if !cand {
+		return false, ""
 	}
 	_, _, numName := lexAll(src)
 	if numName {
